@@ -484,6 +484,9 @@ def _do_extract(raw, i, unitfile, repo_root, out, log, meta, twin=False):
         elif dname == "n1":
             _n1(item, ticks[0], _occ(words), log)
             i += 1
+        elif dname == "lift":
+            _lift(item, ticks, _occ(words), log, ex)
+            i += 1
         else:
             raise ExtractError(f"{unitfile}:{i+1}: unknown directive @{dname} inside @extract")
     out.extend(prefix_lines)
@@ -590,3 +593,72 @@ def _twin_contract(block, vlabel):
             new[k] = Line(new[k].text.rstrip() + ",", new[k].origin, new[k].label)
         new.insert(pos, Line("ensures false,", ("gen", "vacuity twin"), vlabel))
     return new
+
+
+def _lift(item, ticks, k, log, ex):
+    """N2 closure lifting.
+       @lift `EXPR_ANCHOR` `CLOSURE_PARAMS` `REPLACEMENT` `FN_HEADER`
+    EXPR_ANCHOR ends with the `(` of the call that takes the closure (e.g. `self .qubits .iter() .enumerate() .all(`);
+    the closure `CLOSURE_PARAMS BODY` follows.  BODY (a brace block) is moved verbatim into a new function with
+    header FN_HEADER placed right after the enclosing function, and the whole expression from the start of the
+    anchor to the `)` closing the call is replaced by REPLACEMENT (an outlined, assumed combinator call).  So the
+    closure's code is verified as a function of its own; only the iterator combinator around it is assumed."""
+    anchor, params, replacement, header = ticks[0], ticks[1], ticks[2], ticks[3]
+    (a, e), _ = item.find_anchor(anchor, k)
+    txt = item.joined()
+    mt = mask(txt)
+    open_paren = e - 1
+    if mt[open_paren] != "(":
+        raise ExtractError(f"@lift: anchor must end with `(`: `{anchor}`")
+    close_paren = match_bracket(mt, open_paren)
+    # closure parameter list right after the paren
+    prx = re.compile(r"\s*" + r"\s*".join(re.escape(p) for p in params.split()))
+    pm = prx.match(txt, open_paren + 1)
+    if not pm:
+        raise ExtractError(f"@lift: closure parameters `{params}` not found after `{anchor}`")
+    b = pm.end()
+    while txt[b].isspace():
+        b += 1
+    wrap = False
+    if mt[b] != "{":
+        # an expression body (`|q| match q { .. }`): everything up to the call's closing parenthesis, wrapped in braces
+        body_close = close_paren - 1
+        while mt[body_close] in " \n\t,":
+            body_close -= 1
+        wrap = True
+    else:
+        body_close = match_bracket(mt, b)
+        if mt[body_close + 1:close_paren].strip(" \n\t,") != "":
+            raise ExtractError("@lift: unexpected text between the closure body and the closing parenthesis")
+    la, _ = item._line_index(b)
+    lb, cb = item._line_index(body_close)
+    # copy the body lines (verbatim, keeping their repo origins)
+    first_li, first_ci = item._line_index(b)
+    body_lines = []
+    for li in range(first_li, lb + 1):
+        l = item.lines[li]
+        t = l.text
+        if li == lb:
+            t = t[:cb + 1]
+        if li == first_li:
+            t = " " * first_ci + t[first_ci:]
+        body_lines.append(Line(t, l.origin, l.label))
+    if wrap:
+        o0 = item.lines[first_li].origin
+        body_lines = [Line("    {", o0)] + body_lines + [Line("    }", item.lines[lb].origin)]
+    # the enclosing function ends at the brace matching the first `{` after the nearest preceding `fn`
+    fpos = max(h.start() for h in re.finditer(r"\bfn\b", mt[:a]))
+    fb = item.repo_top_level(mt, "{", fpos)
+    fend = match_bracket(mt, fb)
+    lend, _ = item._line_index(fend)
+    origin = item.lines[first_li].origin
+    lifted = [Line("    // lifted closure body (normalisation N2): " + norm_ws(params), ("gen", "N2 lifted closure")),
+              Line("    " + header, origin)] + body_lines
+    # replace the expression, last position first so that indices stay valid
+    item.insert_lines(lend + 1, lifted)
+    item.replace_span(a, close_paren + 1, replacement)
+    log.count("N2 closure lifted to a named function")
+    log.outlined.append({"item": ex.describe(), "repo_line": origin[2] if origin[0] == "repo" else None,
+                         "expression": norm_ws(anchor) + " <closure> )", "replaced_by": replacement})
+    log.replaced.append({"item": ex.describe(), "class": "N2", "old": norm_ws(anchor) + norm_ws(params) + " {..})",
+                         "new": replacement + "  +  " + header, "count": 1})
